@@ -246,6 +246,83 @@ def oracle_pwc(c, got):
     return None
 
 
+C_SYNTAX = ['io; sync worker(2)', 'pool{3}', 'a;b', 'x{', '}', 'int f(int a)', 'void main()', '/* c', 'c */', '// n', '#if 0',
+            '#endif', 'if (x) {', 'else', 'case 1:', 'struct s', 'return;', 'L"w', "'c", '"s', 'a\\', '0x1f', '1.5e3', 'goto l;',
+            'l:', '@', '$', 'static int g(void)', 'typedef', 'enum e {', '};', 'do', 'while (1);', 'x = y', 'f(a, b);', '??=',
+            'asm(', 'u8"', "R\"(", 'unsigned long long h(', ';', '{', '()', 'name (', 'int']
+
+
+def coloured_cuts_section(rep, rng, tier):
+    """The prefix statement of C06 is about the LINES the tool prints, and by default it prints them coloured: a line already
+    printed may not depend on records that come later.  Dumps whose free-text fields (thread names, paths, global strings)
+    are pieces of C syntax — what the highlighter's lexer keeps state about: statement ends, braces, declarators, comments,
+    strings, preprocessor lines — are cut at record boundaries and in between; with colour ON the lines of the cut dump must
+    be a prefix of the lines of the whole dump, and with colour off as well (oracle on the code alone; pygments is outside the
+    model)."""
+    import io
+    from .. import pipeline as PL
+    from pykdebugparser.pykdebugparser import PyKdebugParser
+    sec = rep.section('coloured-cuts')
+    sec['rule'] = ('v2 dumps of 12-90 trace-producing records whose texts are C-syntax fragments (%d pieces, joined in pairs), '
+                   'formatted_traces with colour on / off, cut behind every k-th record and at unaligned offsets: lines(cut) '
+                   'must be a prefix of lines(whole)' % len(C_SYNTAX))
+    n_dumps = 6 if tier == 'quick' else 60
+
+    def text():
+        return ' '.join(rng.choice(C_SYNTAX) for _ in range(rng.choice([1, 2, 2, 3])))[:60]
+
+    def lines_of(data, codes, colour):
+        p = PyKdebugParser()
+        p.color = colour
+        out, err = [], '-'
+        try:
+            for ln in p.formatted_traces(io.BytesIO(data), codes):
+                out.append(ln)
+        except Exception as e:
+            err = core.err_name(e)
+        return out, err
+
+    for d in range(n_dumps):
+        s = PL.Stream(rng)
+        s.ts = 256 * rng.randrange(1, 1000)
+        tids = [5, 6, 7]
+        for _ in range(rng.choice([12, 30, 70, 90]) if d % 2 else rng.randrange(12, 40)):
+            tid = rng.choice(tids)
+            k = rng.random()
+            if k < 0.45:
+                s.threadname(tid, text()[:31])
+            elif k < 0.65:
+                s.gstring(tid, rng.randrange(0, 9), text()[:15])
+            elif k < 0.9:
+                s.syscall('BSC_open', tid, [0, 0, 0, 0], [0, 3, 0, 0], [(text(), rng.randrange(1, 1 << 30))])
+            else:
+                s.ev('MACH_SCHED', 0, tid, [0, 1, 2, 3])
+        recs = s.recs
+        if recs[0][0] == 0:
+            recs = [bytes([1]) + recs[0][1:]] + recs[1:]
+        whole = PL.v2_bytes([(5, 42, 'launchd'), (6, 42, 'launchd')], recs, 0)
+        hdr = len(whole) - 64 * len(recs)
+        codes = PL.restricted_codes(recs, extra=('VFS_LOOKUP',))
+        step = max(1, len(recs) // (5 if tier == 'quick' else 16))
+        cuts = sorted({hdr + 64 * i for i in range(0, len(recs) + 1, step)} | {hdr + 64 * rng.randrange(len(recs)) + rng.randrange(1, 64)
+                                                                           for _ in range(2)})
+        for colour in (True, False):
+            full, ferr = lines_of(whole, codes, colour)
+            for k in cuts:
+                sec['cases'] += 1
+                part, _ = lines_of(whole[:k], codes, colour)
+                if part != full[:len(part)]:
+                    i = next((j for j, (a, b) in enumerate(zip(part, full)) if a != b), min(len(part), len(full)))
+                    rep.add_failure('trunc:coloured-line-depends-on-later-records' if colour else 'trunc:line-depends-on-later-records',
+                                    'dump of %d records cut at byte %d of %d (colour %s): line %d of the cut dump is %r, of the whole '
+                                    'dump %r' % (len(recs), k, len(whole), 'on' if colour else 'off', i,
+                                                 (part[i:i + 1] or ['<none>'])[0][:160], (full[i:i + 1] or ['<none>'])[0][:160]),
+                                    {'section': 'coloured-cuts', 'hex': whole.hex(), 'cut': k, 'colour': colour,
+                                     'codes': {str(a): b for a, b in codes.items()}})
+                    break
+                sec['distinct_nontrivial'] += 1 if part else 0
+
+
 def correspondence(rep, rng, tier):
     from .. import rdir
     rdir.enable(rep)
@@ -280,12 +357,38 @@ def correspondence(rep, rng, tier):
     run_section(rep, 'pwc', pw, lambda c: 'pwc %d %d' % (c['count'], c['n']), impl_pwc, oracle_fn=oracle_pwc,
                 rule='print_with_count(range(n), count) for n in {0,1,2,5,9} x count in {-3..100}: printed lines == model == '
                      'first count lines (all for negative count)')
+    coloured_cuts_section(rep, rng, tier)
 
 
 def replay(path):
     with open(path) as fd:
         r = json.load(fd)
     rp = r['replay']
+    if rp.get('section') == 'coloured-cuts':
+        import io
+        from pykdebugparser.pykdebugparser import PyKdebugParser
+        whole, k = bytes.fromhex(rp['hex']), rp['cut']
+        codes = {int(a): b for a, b in rp['codes'].items()}
+
+        def lines_of(data):
+            p = PyKdebugParser()
+            p.color = rp['colour']
+            out = []
+            try:
+                for ln in p.formatted_traces(io.BytesIO(data), codes):
+                    out.append(ln)
+            except Exception:
+                pass
+            return out
+        full, part = lines_of(whole), lines_of(whole[:k])
+        for i, ln in enumerate(part):
+            mark = '' if i < len(full) and full[i] == ln else '   <- differs from line %d of the whole dump: %r' % (i, (full[i:i + 1] or ['<none>'])[0])
+            print('cut line %d: %r%s' % (i, ln, mark))
+        if part != full[:len(part)]:
+            print(f'VIOLATION property=C06 replay={path}')
+            return 1
+        print('lines of the cut dump are a prefix of the lines of the whole dump')
+        return 0
     sec, case = rp['section'], rp['case']
     if sec == 'end-to-end':
         from .. import pipeline as _PL
